@@ -160,6 +160,7 @@ impl<'a> Model<'a> {
     pub(crate) fn get_external_formula_updates_for_cut(
         &mut self,
         area: &Area,
+        target_sheet: u32,
         target_row: i32,
         target_column: i32,
     ) -> Result<Vec<(u32, i32, i32, String)>, String> {
@@ -189,6 +190,17 @@ impl<'a> Model<'a> {
                                 && row < area.row + area.height
                                 && col >= area.column
                                 && col < area.column + area.width
+                            {
+                                return None;
+                            }
+                            // skip the cells that were just pasted: their references
+                            // have already been displaced (the target can overlap the
+                            // area, so they can still point into it)
+                            if ws_idx_u32 == target_sheet
+                                && row >= target_row
+                                && row < target_row + area.height
+                                && col >= target_column
+                                && col < target_column + area.width
                             {
                                 return None;
                             }
